@@ -143,11 +143,12 @@ func (w *c12Walk) visit(s *c12Sim, seq []int, val any, stack string) bool {
 	c := w.caseOf(seq)
 	if counted {
 		w.nodes++
+		w.a.walkNodes++
 		w.a.observeNode(w.p, &c, &r)
 		if w.p.Evaluations%9973 == 1 {
 			w.p.Sample(map[string]any{"profile": c.Profile, "path": c12PathOf(w.pi).Name, "seq": c12SeqNames(seq), "draw": c.Draw, "modes": r.shape, "events": s.events})
 		}
-		if w.nodes%509 == 0 && r.clause == "" && r.infra == "" {
+		if w.a.walkNodes%509 == 0 && r.clause == "" && r.infra == "" {
 			// re-execute from scratch and compare
 			fp := s.fingerprint()
 			cnt := c12DrawCnt
@@ -227,6 +228,7 @@ func c12CountDelta(p *evidence.Part, s *c12Sim, prev *c12Sim) {
 	p.Count("pto_probes", s.ptos-prev.ptos)
 	p.Count("datagram_size_raises", s.mtuRaises-prev.mtuRaises)
 	p.Count("tail_drops", s.tailDrops-prev.tailDrops)
+	p.Count("ack_only_packets", s.ackOnly-prev.ackOnly)
 	p.Count("events_with_window_at_four_datagrams", s.atFloor-prev.atFloor)
 	p.Count("events_with_window_within_one_datagram_of_max", s.atCeil-prev.atCeil)
 	for m := 0; m < 4; m++ {
